@@ -98,6 +98,7 @@ def getDotted : Val → List String → Res Val
   | .list (.cell (.int _) :: _), _ :: _ => throw Err.type
   | .cell .none, _ :: _ => throw Err.type
   | .cell (.int _), _ :: _ => throw Err.type
+  | .cell (.flt _), _ :: _ => throw Err.type
   | _, _ :: _ => throw Err.other
 
 /-- `tree_getitem(tree, path)` on a tree of `dictattr` / `Dict` nodes (`dotted = true`; for plain dicts `dotted = false`
